@@ -563,6 +563,19 @@ func (f *Frame) evalBinary(e *spec.Binary, st, old *State) TV {
 	}
 	a := f.eval(e.X, st, old)
 	b := f.eval(e.Y, st, old)
+	if e.Op == "<<" || e.Op == ">>" {
+		// Go's shift: the result has the type of the left operand; the count is any integer kind
+		// (taken as unsigned here: a negative count panics in Go and is excluded where it matters)
+		at, aok := a.V.(*smt.Term)
+		bt, bok := b.V.(*smt.Term)
+		if aok && bok && at.S.K == smt.KBV && bt.S.K == smt.KBV && a.T != nil {
+			op := token.SHL
+			if e.Op == ">>" {
+				op = token.SHR
+			}
+			return TV{x.shiftTerm(op, at, bt, isSigned(a.T), at.S.W, bt.S.W), a.T}
+		}
+	}
 	if (e.Op != "==" && e.Op != "!=") || (a.V != nil && b.V != nil) {
 		a, b = f.unify(a, b)
 	}
